@@ -194,6 +194,33 @@ Definition model_src_filter {XT : Type} (inverse_transf : qrow -> XT) (U : list 
 Definition violated_of {XT : Type} (inverse_transf : qrow -> XT) (non_box_cons : option (XT -> Q)) : option (qrow -> bool) :=
   option_map (fun c u => negb (Qle_bool (c (inverse_transf u)) (0 # 1))) non_box_cons.
 
+(* ---- the call sites of contraints_check in the package ----------------------------------- *)
+(* `<cs_target> = contraints_check(<cs_target>, <cs_args>)` in function [cs_fun] of [cs_file]; the last statement before
+   the call (same block) that writes the candidate variable; the statements after it (same block) that write it again *)
+Record call_site := { cs_file : string; cs_fun : string; cs_target : string; cs_args : list string;
+                      cs_last_write_before : string; cs_writes_after : list string }.
+
+(* the call sites the pin theorem C17_call_sites_are_source was written against *)
+Definition model_filter_calls : list call_site :=
+  [
+  {| cs_file := "pybads/bads/bads.py"; cs_fun := "BADS._init_mesh_"; cs_target := "u1";
+     cs_args := ["self.optim_state['lb_search']"; "self.optim_state['ub_search']"; "self.optim_state['tol_mesh']"; "self.function_logger"; "True"; "self.non_box_cons"];
+     cs_last_write_before := "u1 = force_to_grid(u1, self.optim_state['search_mesh_size'])";
+     cs_writes_after := [] |};
+  {| cs_file := "pybads/bads/bads.py"; cs_fun := "BADS._search_step_"; cs_target := "u_search_set";
+     cs_args := ["self.optim_state['lb_search']"; "self.optim_state['ub_search']"; "self.optim_state['tol_mesh']"; "self.function_logger"; "True"; "self.non_box_cons"];
+     cs_last_write_before := "u_search_set = force_to_grid(u_search_set, self.optim_state['search_mesh_size'])";
+     cs_writes_after := [] |};
+  {| cs_file := "pybads/bads/bads.py"; cs_fun := "BADS._poll_step_"; cs_target := "u_poll_new";
+     cs_args := ["self.lower_bounds"; "self.upper_bounds"; "self.optim_state['tol_mesh']"; "self.function_logger"; "False"; "self.non_box_cons"];
+     cs_last_write_before := "if self.options['force_poll_mesh']: u_poll_new = force_to_grid(u_poll_new, self.optim_state['search_mesh_size'])";
+     cs_writes_after := [] |};
+  {| cs_file := "pybads/search/es_search.py"; cs_fun := "ESSearch.__call__"; cs_target := "u_new";
+     cs_args := ["optim_state['lb_search']"; "optim_state['ub_search']"; "optim_state['tol_mesh']"; "func_logger"; "True"; "non_box_cons"];
+     cs_last_write_before := "u_new = force_to_grid(u_new, self.search_mesh_size)";
+     cs_writes_after := ["nested in a later `if`: u_new = ..."] |}
+  ]%string.
+
 (* ---- the feasibility checks of the starting point: ordered events ------------------------- *)
 
 Inductive cons_arg := ArgX0 | ArgInvU0.            (* non_box_cons(self.x0) | non_box_cons(inverse_transf(u0)) *)
